@@ -1,6 +1,6 @@
 #!/bin/sh
 # Runs every check of MANIFEST.json at the given tier (default quick) and prints one line per property.
-cd /verif
+cd "$(dirname "$0")/.."
 tier=${1:-quick}
 rc=0
 for p in $(./check list); do
